@@ -326,6 +326,11 @@ func (c *Conn) Write(p []byte) (int, error) {
 	} else {
 		h.buf = append(h.buf, data...)
 	}
+	if doCut {
+		// Close the outgoing direction in the same critical section so
+		// no later write of this end can slip through.
+		h.closed = true
+	}
 	h.cond.Broadcast()
 	h.mu.Unlock()
 
